@@ -468,7 +468,7 @@ class Gen:
             self.predict(m1, ds[0], ignore=True)
             # second generation: what the gate knows must survive being stored again
             doc2 = self.store(m1)
-            m2 = self.load(doc2)
+            m2 = self.load(doc2, form="json")
             self.predict(m2, ds[0], ignore=False)
             # the other guards on a restored object: foreign timezone (look-alike or not), foreign data family
             if base0.get("src") != "sample":
@@ -488,6 +488,9 @@ class Gen:
                 dr = self.make_data(self._reporting(ob, obs="present", span=r.choice(["week", "month"])
                                                     if not (ob.get("src") == "sample" and ob["fam"] == "billing") else "partial"))
                 self.predict(m2, dr, ignore=True)
+                # the unchanged document read once more: what the gate knows must be what the document says
+                m5 = self.load(doc2, mslot=m1, form="json")
+                self.predict(m5, ds[0], ignore=False)
             self._refused_refits(m0, base0, dx)
             self._refit_flipped(m0, base0, also_fresh=False)
         elif mode == "C05":
